@@ -76,6 +76,7 @@ fn tsan(cfg: &Cfg, stats: &mut Stats) {
         }
     }
     stats.add("tsan_processes", runs);
+    stats.cover("sanitizers_run", "thread sanitizer (storm binary; std, salsa and dashmap instrumented with -Zbuild-std)");
     if storm_problems > 0 {
         stats.violation(Violation { signature: "storm-oracle-under-tsan".into(), tags: vec![], generator: "tsan".into(), index: 0, detail: json!({"problems": storm_problems}) });
     }
